@@ -89,6 +89,12 @@ func (x *c20SX) ev(e ast.Expr, st *c20St) []c20EV {
 				continue
 			}
 			b, i := it.vs[0], it.vs[1]
+			if b.k == c20kAgg {
+				for _, l := range x.lookup(b, i, it.st, e) {
+					out = append(out, c20EV{l.st, l.v})
+				}
+				continue
+			}
 			if b.k == c20kIn && i.k == c20kObj && i.tag == "loopidx" && i.h != nil && i.h.key() == b.h.key() {
 				if ev, ok := x.elemValue(b, i.id); ok {
 					out = append(out, c20EV{it.st, ev})
@@ -119,7 +125,20 @@ func (x *c20SX) ident(id *ast.Ident, st *c20St) c20V {
 	if v, ok := st.env[o]; ok {
 		return st.resolve(v)
 	}
+	if fn, ok := o.(*types.Func); ok {
+		return c20V{k: c20kFunc, obj: fn, typ: fn.Type()}
+	}
 	if vr, ok := o.(*types.Var); ok && !vr.IsField() && vr.Pkg() != nil && vr.Parent() == vr.Pkg().Scope() {
+		if cl := x.cx.constTable(vr); cl != nil {
+			if evs, ok := x.aggLit(cl, x.info.TypeOf(cl), st); ok && len(evs) == 1 && evs[0].st == st {
+				return evs[0].v
+			}
+			if _, isStruct := x.info.TypeOf(cl).Underlying().(*types.Struct); isStruct {
+				if evs := x.composite(cl, st, false); len(evs) == 1 && evs[0].st == st {
+					return evs[0].v
+				}
+			}
+		}
 		name := vr.Name()
 		if vr.Pkg() != x.cx.pk.Types {
 			name = vr.Pkg().Name() + "." + name
@@ -150,6 +169,16 @@ func (x *c20SX) selector(e *ast.SelectorExpr, st *c20St) []c20EV {
 	}
 	f := fieldOf(x.info, e)
 	if f == nil {
+		if s := x.info.Selections[e]; s != nil && s.Kind() == types.MethodVal {
+			if fn, ok := s.Obj().(*types.Func); ok {
+				var out []c20EV
+				for _, r := range x.ev(e.X, st) {
+					recv := r.v
+					out = append(out, c20EV{r.st, c20V{k: c20kFunc, obj: fn, base: &recv, typ: x.info.TypeOf(e)}})
+				}
+				return out
+			}
+		}
 		return c20One(st, c20Unknown("method value `%s`", x.srcOf(e)))
 	}
 	var out []c20EV
@@ -257,9 +286,12 @@ func (x *c20SX) composite(cl *ast.CompositeLit, st *c20St, addr bool) []c20EV {
 	if c20IsBuilderType(t) && !addr && len(cl.Elts) == 0 {
 		return c20One(st, x.zero(t))
 	}
+	if out, ok := x.aggLit(cl, t, st); ok && !addr {
+		return out
+	}
 	nt, _ := t.(*types.Named)
 	stt, _ := t.Underlying().(*types.Struct)
-	if nt == nil || stt == nil {
+	if stt == nil {
 		return c20One(st, c20Unknown("composite literal `%s`", x.srcOf(cl)))
 	}
 	var vals []ast.Expr
@@ -288,11 +320,23 @@ func (x *c20SX) composite(cl *ast.CompositeLit, st *c20St, addr bool) []c20EV {
 		for i, n := range names {
 			fields[n] = it.vs[i]
 		}
-		if en := x.pkgErrType(types.NewPointer(nt)); en != "" && nt.Obj().Pkg() == x.cx.pk.Types {
-			out = append(out, c20EV{it.st, c20V{k: c20kErr, tag: en, fields: fields, b: addr, typ: t}})
-			continue
+		if nt == nil || nt.Obj().Pkg() == x.cx.pk.Types {
+			// a struct of the package built here: fields not given hold their zero value
+			for i := 0; i < stt.NumFields(); i++ {
+				if _, given := fields[stt.Field(i).Name()]; !given {
+					fields[stt.Field(i).Name()] = x.zero(stt.Field(i).Type())
+				}
+			}
 		}
-		out = append(out, c20EV{it.st, c20V{k: c20kObj, tag: "doc", id: x.newID(), name: nt.Obj().Name(), b: len(cl.Elts) == 0, typ: t, fields: fields}})
+		name := "" // unnamed struct type (e.g. the element of a table of {code, constructor} pairs)
+		if nt != nil {
+			name = nt.Obj().Name()
+			if en := x.pkgErrType(types.NewPointer(nt)); en != "" && nt.Obj().Pkg() == x.cx.pk.Types {
+				out = append(out, c20EV{it.st, c20V{k: c20kErr, tag: en, fields: fields, b: addr, typ: t}})
+				continue
+			}
+		}
+		out = append(out, c20EV{it.st, c20V{k: c20kObj, tag: "doc", id: x.newID(), name: name, b: len(cl.Elts) == 0, typ: t, fields: fields}})
 	}
 	return out
 }
